@@ -96,9 +96,15 @@ def install(rec, BB, ES, SH, GT, gpyreg):
             lenS = -1 if s2 is None else (1 if np.isscalar(s2) else int(np.asarray(s2).size))
             inj = idx in rec.ffaults
             ctx = rec.gp_ctx[-1] if rec.gp_ctx else "other"
+            # position inside the enclosing _robust_gp_fit_ call (-1: not inside one)
+            rfit = rec.rfit_id if rec.rfit_depth > 0 else -1
+            rtry = -1
+            if rfit >= 0:
+                rtry = rec.rfit_try
+                rec.rfit_try += 1
             if inj:
                 rec.emit("FitAttempt", idx=idx, ctx=ctx, lenX=lenX, lenY=lenY, lenS2=lenS,
-                         injected=True, outcome="LinAlgError", site=rec.site())
+                         injected=True, outcome="LinAlgError", site=rec.site(), rfit=rfit, rtry=rtry)
                 raise np.linalg.LinAlgError("injected fit failure at invocation %d" % idx)
             outcome = "ok"
             try:
@@ -108,9 +114,26 @@ def install(rec, BB, ES, SH, GT, gpyreg):
                 raise
             finally:
                 rec.emit("FitAttempt", idx=idx, ctx=ctx, lenX=lenX, lenY=lenY, lenS2=lenS,
-                         injected=False, outcome=outcome, site=rec.site())
+                         injected=False, outcome=outcome, site=rec.site(), rfit=rfit, rtry=rtry)
         return w
     rec._patch(GP, "fit", mk_fit)
+
+    # ---- _robust_gp_fit_ : numbers its fit attempts ------------------------
+    rec.rfit_id = -1
+    rec.rfit_depth = 0
+    rec.rfit_try = 0
+
+    def mk_robust(orig):
+        def w(*a, **kw):
+            rec.rfit_id += 1
+            rec.rfit_depth += 1
+            rec.rfit_try = 0
+            try:
+                return orig(*a, **kw)
+            finally:
+                rec.rfit_depth -= 1
+        return w
+    rec._patch(GT, "_robust_gp_fit_", mk_robust)
 
     # ---- GP.predict : remember outputs produced inside an acquisition call
     def mk_predict(orig):
